@@ -94,7 +94,10 @@ pub fn gen_node(r: &mut Rng, tier: &str, rooms: u8, nondyadic: bool, name: &'sta
                 nondyadic,
                 allow_freeable: i % 3 != 0,
             };
-            let inst = if nondyadic && i % 6 == 5 { gen::gen_f32_corner(r) } else { gen::gen_instance(r, &p) };
+            let mut inst = if nondyadic && i % 6 == 5 { gen::gen_f32_corner(r) } else { gen::gen_instance(r, &p) };
+            if rooms == 2 && i % 6 == 2 {
+                gen::make_fixed_unpopular(r, &mut inst);
+            }
             Case { stream: name, data: json!({"inst": inst.to_json(), "max_nodes": if big { 120 } else { 60 }}) }
         })
         .collect()
@@ -263,7 +266,10 @@ pub fn gen_solve(r: &mut Rng, tier: &str, rooms: u8, name: &'static str) -> Vec<
                 nondyadic: i % 5 == 0,
                 allow_freeable: i % 3 == 1,
             };
-            let inst = gen::gen_instance(r, &p);
+            let mut inst = gen::gen_instance(r, &p);
+            if rooms == 2 && i % 4 == 2 {
+                gen::make_fixed_unpopular(r, &mut inst);
+            }
             let scheds: Vec<Value> = (0..scale(tier, 3, 6)).map(|_| Sched::gen(r).to_json()).collect();
             let threads: Vec<u64> = (0..scheds.len()).map(|j| [1u64, 2, 3, 4, 8][(i + j) % 5]).collect();
             Case { stream: name, data: json!({"inst": inst.to_json(), "scheds": scheds, "threads": threads, "brute": small}) }
@@ -381,7 +387,7 @@ pub fn gen_roompairs(r: &mut Rng, tier: &str) -> Vec<Case> {
     (0..n)
         .map(|i| {
             let p = InstParams { max_courses: 5, max_parts: 9, rooms: 0, nondyadic: i % 4 == 0, allow_freeable: i % 2 == 0 };
-            let inst = gen::gen_instance(r, &p);
+            let inst = if i % 5 == 4 { gen::gen_f32_exact_product(r) } else { gen::gen_instance(r, &p) };
             Case { stream: "roompairs", data: json!({"inst": inst.to_json(), "extra": r.below(3), "sched": Sched::gen(r).to_json()}) }
         })
         .collect()
@@ -661,6 +667,9 @@ pub fn run_rooms(data: &Value) -> Vec<Line> {
                         let req = json!({"sizes": sizes, "order": order, "rooms": [], "kinds": kinds});
                         let exp = json!({"rooms": rs, "list": names, "sound": true, "nonempty": true});
                         lines.push(Line::corr(&["C18"], "RP", req.to_string(), exp.to_string()).feat(&feat));
+                        // the specification, evaluated in Lean on what the real code listed
+                        let spec = json!({"sizes": sizes, "rooms": rs, "listed": names, "kinds": kinds});
+                        lines.push(Line::spec(&["C18"], "RS", spec.to_string(), "sound=true nonempty=true".to_string()));
                     }
                     Err(e) => lines.push(Line::direct(&["C18"], false, format!("get_course_room_kind_names panicked: {}", e))),
                 }
@@ -673,6 +682,8 @@ pub fn run_rooms(data: &Value) -> Vec<Line> {
                 let req = json!({"sizes": sizes, "order": order, "rooms": rooms});
                 let exp = json!({"rooms": rooms, "list": list, "sound": true, "nonempty": true});
                 lines.push(Line::corr(&["C18"], "RP", req.to_string(), exp.to_string()).feat(&feat));
+                let spec = json!({"sizes": sizes, "rooms": rooms, "listed": list});
+                lines.push(Line::spec(&["C18"], "RS", spec.to_string(), "sound=true nonempty=true".to_string()));
             }
             Err(e) => lines.push(Line::direct(&["C18"], false, format!("get_course_room_size_list panicked: {}", e))),
         }
